@@ -310,6 +310,7 @@ class Interp:
         self.trace_calls: list | None = None  # when a list: every resolved repo call is appended
         self.path_conds: list = []  # stack of (cond, polarity) for the abstract branches being explored
         self.cur_guards: list = []  # raise-guards passed on every path that reaches the current point
+        self.ndim_oracle = None  # optional: rank of an abstract array from a shape domain (domain A)
 
     # -------------------------------------------------------------- utilities
     def site(self, module, node):
@@ -638,6 +639,8 @@ class Interp:
         if isinstance(obj, T.Term):
             if name == "ndim":
                 r = infer_ndim(obj)
+                if r is None and self.ndim_oracle is not None:
+                    r = self.ndim_oracle(obj)
                 if r is not None:
                     return r
             return T.mk("attr", (obj, name), origin=site)
@@ -1626,6 +1629,12 @@ def _p_ndim(it, args, kwargs, site):
     x = args[0]
     if _is_static(x):
         return 0
+    if isinstance(x, T.Term):
+        r = infer_ndim(x)
+        if r is None and it.ndim_oracle is not None:
+            r = it.ndim_oracle(x)
+        if r is not None:
+            return r
     return T.mk("attr", (x, "ndim"), origin=site) if isinstance(x, T.Term) else _MISSING
 
 
